@@ -168,6 +168,15 @@ def step (nd : Node) (ws : List String) : Node × String :=
         (nd.indexFlushPrefix sh k, if k < 4 then "err flush-failed" else "ok")
       else bad
     | none => bad
+  | ["iflushfault", sh, k] =>
+    -- the real Flush() of one shard during which step k fails at its kv commit (when it has something to write)
+    match sh.toNat?, k.toNat? with
+    | some sh, some k =>
+      if sh < nd.nShards ∧ k < 4 then
+        let r := nd.indexFlushFault cfg.indexFlushAborts currentIndexFlushSteps sh k
+        (r.1, if r.2 then "err flush-failed" else "ok")
+      else bad
+    | _, _ => bad
   | ["mflushcrash", k] =>
     match k.toNat? with
     | some k => if k ≤ 5 then ((nd.metaFlushPrefix k).recover, "ok") else bad
